@@ -41,6 +41,10 @@ let run () = iter_lines (fun line ->
           { expected = (if t.kind = 'E' then Some (z_of_int t.code) else None); t_skip = z_of_int (skip_of x);
             per_timeout = (if t.kind = 'T' then Some (n_of_int 400) else None); empty_ok = true }) all in
       let script_mode = m.cram || compat in   (* one script per document: Cram files, and every document under --cram-compat *)
+      (* the skip code of the one script: 80 for a Cram file; under --cram-compat what the test cases carry (the same on all of them) *)
+      let script_skip = (if m.cram then default_skip_document_code else (match all with x :: _ -> z_of_int (skip_of x) | [] -> default_skip_document_code)) in
+      (* a plain `exit 3` leaves the script with code 3: when 3 IS the skip code of the script that is a skip like `exit <skip code>` *)
+      let x_is_skip = script_mode && int_of_z script_skip = 3 in
       let total_ms = (match cli_timeout with Some t -> t | None -> (match m.total with Some t -> t | None -> int_of_n default_document_timeout_ms)) in
       (* time that has certainly passed before each test case starts: one second for every `wait: 1s` so far (this one included) *)
       let elapsed = (let rec f acc = function [] -> [] | (_, _, t) :: r -> let acc' = (if t.kind = 'w' then acc + 1000 else acc) in acc' :: f acc' r in
@@ -50,14 +54,12 @@ let run () = iter_lines (fun line ->
               | 'P' | 'O' | 'w' -> Code Z0 | 'C' | 'E' -> Code (z_of_int t.code) | 'S' -> Code (z_of_int (if m.cram then 80 else skip_of x))
               | 'Q' -> if script_mode then ESkipped else Code (z_of_int (skip_of x))
               | 'G' when cli_unlimited -> Code Z0
-              | 'T' | 'G' -> TimedOut | 'D' -> EDetached | 'K' -> Unknown | 'X' -> Code (z_of_int 3) | _ -> failwith "kind") in
+              | 'T' | 'G' -> TimedOut | 'D' -> EDetached | 'K' -> Unknown | 'X' -> if x_is_skip then ESkipped else Code (z_of_int 3) | _ -> failwith "kind") in
           { status = st; out_ok = (t.kind <> 'O') }) all elapsed in
       let total = (match cli_timeout with Some 0 -> None | Some t -> Some (n_of_int t) | None ->
                      (match m.total with Some t -> Some (n_of_int t) | None -> Some default_document_timeout_ms)) in
       (* Cram: the first test case that leaves the script early with a plain `exit 3` *)
-      let early = (let rec f i = function [] -> None | (_, _, t) :: r -> if t.kind = 'X' then Some (nat_of_int i) else f (i + 1) r in f 0 all) in
-      (* the skip code of the one script: 80 for a Cram file; under --cram-compat what the test cases carry (the same on all of them) *)
-      let script_skip = (if m.cram then default_skip_document_code else (match all with x :: _ -> z_of_int (skip_of x) | [] -> default_skip_document_code)) in
+      let early = (if x_is_skip then None else let rec f i = function [] -> None | (_, _, t) :: r -> if t.kind = 'X' then Some (nat_of_int i) else f (i + 1) r in f 0 all) in
       let e = if script_mode then exec_script2 script_skip rs early
               else exec_timed tcs rs total (List.map n_of_int elapsed) in
       (m, all, tcs, rs, e)) mains in
